@@ -8,14 +8,19 @@ namespace GocoinV.Proofs.C17Cfg
 open GocoinV GocoinV.Model.Balances GocoinV.Model.BalancesLoad GocoinV.Model.BalancesCfg
 open GocoinV.Gen.WalletCfgFacts
 
-/-- The source facts the model's treatment of the two thresholds rests on, restated: this stops compiling when
-    /repo's source says otherwise. -/
+/-- The source facts the model's treatment of the two thresholds rests on, restated in the generator's CANONICAL
+    form (functions named only when they are entry points of their package — exported, init, main, used as a value —,
+    unexported helpers counted as inlined into their callers, package variables found by their role, locals resolved):
+    this stops compiling when /repo's source says otherwise, and does not when a local / unexported helper is renamed,
+    extracted or inlined. -/
 theorem source_facts :
     minValWriters = ["ApplyBalMinVal"] ∧ minValStored = ["CFG.AllBalances.MinValue"] ∧
     minValReaders = ["AllBalMinVal"] ∧ minValReach = ["ApplyBalMinVal", "InitConfig"] ∧
     resetMayWriteMinVal = false ∧ minValExternalCallers = ["wallet.LoadBalancesFromUtxo"] ∧
     loadGuardedByWalletON = true ∧ loadAppliesOnceBeforeScan = true ∧
-    newUtxoReadsInForce = true ∧ allDelReadsInForce = true ∧ walletReadsCfgMinValue = [] ∧
+    addPathComparesWith = ["(<useMapCnt>-1)", "common.AllBalMinVal()"] ∧
+    delPathComparesWith = ["common.AllBalMinVal()"] ∧
+    addPathReadsInForce = true ∧ delPathReadsInForce = true ∧ walletReadsCfgMinValue = [] ∧
     useMapCntWriters = ["InitMaps", "LoadBalances"] ∧
     useMapCntSources = ["int(common.Get(&common.CFG.AllBalances.UseMapCnt))"] := by
   decide
